@@ -965,6 +965,19 @@ class _GenerateRenderMethod:
         self.identifier_stack.append(body_identifiers)
 
         class DefVisitor:
+            def visitCallTag(s, node):
+                # the defs of a call tag nested in this one belong to
+                # that tag's caller namespace, not to this one
+                pass
+
+            def visitCallNamespaceTag(s, node):
+                pass
+
+            def visitControlLine(s, node):
+                # lists every node up to its end line again, including
+                # the defs of call tags nested in this one
+                pass
+
             def visitDefTag(s, node):
                 s.visitDefOrBase(node)
 
